@@ -57,9 +57,31 @@ def gen_ops(rng, tr, n):
 
 def generate(rng):
     scn = {'family': 'lifecycle'}
-    tr = rng.choice(['pty'] * 6 + ['fd', 'sock', 'sock'])
+    tr = rng.choice(['pty'] * 6 + ['fd', 'sock', 'sock', 'popen'])
     scn['transport'] = tr
     scn['costs'] = gen_costs(rng)
+    if tr == 'popen':
+        scn['disp'] = rng.choice(['exited', 'mid_exit', 'normal'])
+        scn['fate'] = {'code': rng.randrange(256)} if rng.random() < 0.6 else {'sig': rng.choice(TERM_SIGNALS)}
+        scn['exit_gap_us'] = rng.choice([0, 0, 2000])
+        scn['output'] = rng.choice(['', 'hello\n'])
+        scn['sched'] = [rng.randint(0, 3) for _ in range(rng.randint(1, 6))]
+        scn['delayafterread'] = 0.001
+        nops = rng.choice([1, 2, 3, 4])
+        ops = []
+        for _ in range(nops):
+            o = rng.choice(['wait', 'wait', 'kill', 'expect_eof', 'read_all'])
+            op = {'op': o}
+            if o == 'kill':
+                op['sig'] = rng.choice([15, 9, 2, 1])
+            ops.append(op)
+        if scn['disp'] == 'normal' and not any(o['op'] == 'kill' for o in ops):
+            ops.insert(0, {'op': 'kill', 'sig': 15})
+        scn['ops'] = ops
+        if scn['disp'] == 'mid_exit':
+            scn['exit_at'] = [rng.randrange(len(ops)), rng.randint(1, 6)]
+        scn['timeout'] = 0.2
+        return scn
     if tr == 'pty':
         scn['disp'] = rng.choice(['normal', 'normal', 'ignore', 'stopped', 'exited', 'mid_exit', 'mid_exit', 'ignore_stopped'])
         r = rng.random()
@@ -107,6 +129,11 @@ def enumerate_scenarios(tier, seed):
             if scn['disp'] == 'mid_exit':
                 scn['exit_at'] = [rng.randrange(len(seq)), rng.randint(1, 6)]
             out.append(scn)
+    for fate in fates:
+        for seq in (['wait'], ['expect_eof', 'wait', 'wait']):
+            out.append({'family': 'lifecycle', 'transport': 'popen', 'costs': [3], 'disp': 'exited', 'fate': fate, 'exit_gap_us': 0,
+                        'output': 'x\n', 'ops': [{'op': o} for o in seq], 'timeout': 0.2, 'sched': [0, 1, 2], 'delayafterread': 0.001,
+                        'enum': 'status'})
     L = 2 if tier == 'quick' else 3
     al = ['isalive', 'wait', 'kill', 'terminate', 'terminate_force', 'close', 'close_noforce', 'sendeof', 'expect_eof',
           'send', 'rnb', 'with_exc', 'del']
@@ -193,6 +220,41 @@ def run(scn, prop=None):
             kw['use_poll'] = scn.get('use_poll', False)
             child = T.SimSpawn('/bin/simchild', **kw)
             main_of = k.fds.get(child.child_fd)
+        elif tr == 'popen':
+            disp = scn.get('disp', 'exited')
+            fate = scn.get('fate', {'code': 0})
+
+            def pchild_gen(a):
+                outw = a.proc.handles[1]
+                if scn.get('output'):
+                    try:
+                        yield ('write', outw, scn['output'].encode('latin-1'))
+                    except OSError:
+                        pass
+                if disp == 'mid_exit' and scn.get('exit_at'):
+                    yield ('at', scn['exit_at'][0], scn['exit_at'][1])
+                elif disp == 'normal':
+                    while True:
+                        yield ('pause',)
+                if 'sig' in fate:
+                    yield ('killself', fate['sig'])
+                else:
+                    yield ('exit', fate.get('code', 0))
+
+            def psetup(cmd):
+                proc = k.new_proc('child')
+                proc_box['p'] = proc
+                r.proc = proc
+                in_r, in_w = k.pipe(65536)
+                out_r, out_w = k.pipe(65536)
+                proc.handles += [in_r, out_w]
+                proc.exit_gap_us = scn.get('exit_gap_us', 0)
+                peers.Actor(w, k, proc, pchild_gen, 1, 'child').start(0)
+                return proc, in_w, out_r
+            w.popen_setup = psetup
+            child = T.SimPopenSpawn(['simchild'], timeout=scn.get('timeout', 0.2))
+            child.delayafterread = scn.get('delayafterread', 0.001)
+            main_of = None
         else:
             a, bb = k.socketpair(65536)
             r.sock_end = bb
@@ -336,7 +398,7 @@ def run(scn, prop=None):
                         V('C10.alive_after_reap', 'isalive() returned True for a reaped child', **det)
                     if res['ret'] is False and not kdead:
                         V('C10.dead_but_running', 'isalive() returned False but the kernel says the child is %s' % proc.state, **det)
-                if child.terminated and not kdead:
+                if child.terminated and not kdead and tr != 'popen':
                     V('C10.dead_but_running', 'terminated is True but the kernel says the child is %s' % proc.state, **det)
                 if proc.state == 'reaped':
                     reaped_seen = True
@@ -351,8 +413,10 @@ def run(scn, prop=None):
                         V('C10.fd_leak', '%s returned but the descriptor is still open' % o, **det)
                     if not child.closed or child.child_fd != -1:
                         V('C10.stale_handle', '%s returned but closed=%r child_fd=%r' % (o, child.closed, child.child_fd), **det)
-                # C09: status truth
-                if child.terminated:
+                # C09: status truth (PopenSpawn starts with terminated=True and learns the status only in wait())
+                if tr == 'popen' and o == 'wait' and res['out'] == 'ret':
+                    state['waited'] = True
+                if child.terminated and (tr != 'popen' or state.get('waited')):
                     truth = decode_status(proc.status)
                     claim = (child.exitstatus, child.signalstatus, child.status)
                     es, ss, stt = claim
@@ -367,14 +431,14 @@ def run(scn, prop=None):
                         V('C09.status', 'exitstatus/signalstatus %r/%r but the child really %s' % (es, ss, truth), **det)
                     elif stt is not None and decode_status(stt) != truth:
                         V('C09.status_word', 'status %r decodes to %s, child really %s' % (stt, decode_status(stt), truth), **det)
-                    elif stt is None:
+                    elif stt is None and tr != 'popen':
                         V('C09.status_word', 'terminated but status is None', **det)
                     if observed is None:
                         observed = claim
                     elif claim != observed:
                         V('C09.unstable', 'status values changed from %r to %r' % (observed, claim), **det)
                     if o == 'wait' and res['out'] == 'ret' and truth is not None:
-                        want = truth[1] if truth[0] == 'exit' else None
+                        want = truth[1] if truth[0] == 'exit' else (None if tr != 'popen' else res['ret'])
                         if res['ret'] != want:
                             V('C09.wait_return', 'wait() returned %r, exit code is %r' % (res['ret'], want), **det)
                 if (o == 'wait' and res['out'] == 'ret') or (o == 'isalive' and res.get('ret') is False) or \
@@ -407,7 +471,7 @@ def run(scn, prop=None):
                 break
         # ---------------------------------------------------------- the end
         child = state['child']
-        if child is not None and not out:
+        if child is not None and not out and tr != 'popen':
             # a closed object must not own a live descriptor; an unclosed one is closed now and must clean up
             try:
                 child.close()
